@@ -60,6 +60,7 @@ pub fn gen_swarm(rng: &mut Rng, profile: Profile) -> Swarm {
         n_ops: rng.range(20, 150) as u32,
         start_s: 1_700_000_000 + rng.below(100_000_000),
         base_tx_index: rng.below(50) as u32,
+        zero_ibc_ok: rng.chance(3, 10),
     }
 }
 
@@ -243,6 +244,57 @@ pub fn next_op(e: &Engine, rng: &mut Rng) -> Op {
         if e.sw.faults { w.forced } else { 0 },
         w.validators,
     ];
+    // follow-up biases: place the interesting operation right after the event that sets it up
+    let mut table = table;
+    // several refunded transfers for one receiver: forced recoveries with repeated ids become interesting
+    let mut per_recv: std::collections::BTreeMap<&str, u32> = Default::default();
+    for p in open.iter().filter(|p| p.state == PState::Refunded && !e.m.recovered.contains(&p.id)) {
+        *per_recv.entry(p.receiver.as_str()).or_insert(0) += 1;
+    }
+    if e.sw.faults && per_recv.values().any(|n| *n >= 2) {
+        table[23] += 14;
+    }
+    match e.last_kind {
+        "stray_callback" => {
+            table[8] += 40; // recover
+            if table[6] > 0 {
+                table[6] += 10;
+            }
+        }
+        "relay_timeout" | "lose_callback" => table[8] += 25,
+        "relay_full" | "relay_ack" => {
+            if refundable > 0 {
+                table[8] += 20;
+            }
+        }
+        "fault" => {
+            table[0] += 30;
+            table[9] += 10;
+            table[8] += 10;
+        }
+        "op_deliver" => table[5] += 30,
+        "submit_batch" => {
+            if table[3] > 0 {
+                table[3] += 25;
+            }
+            table[4] += 10;
+        }
+        "admin_breaker" | "breaker_by" => {
+            // while halted: try everything that has to be refused
+            for i in [0usize, 1, 2, 4, 5, 9] {
+                if table[i] > 0 {
+                    table[i] = table[i] * 3 + 6;
+                }
+            }
+        }
+        "admin_transfer" => table[14] += 30,
+        "recover" | "admin_forced_recover" => {
+            if table[6] > 0 {
+                table[6] += 20
+            }
+        }
+        _ => {}
+    }
     match rng.weighted(&table) {
         0 => {
             let via = match rng.below(10) {
